@@ -45,10 +45,28 @@ def main(argv):
   except core.InfraError as e:
     print("INFRA-ERROR %s: %s" % (prop, e))
     return 2
-  except Exception:  # pylint: disable=broad-except
+  except (MemoryError, OSError, subprocess.SubprocessError):
     traceback.print_exc()
     print("INFRA-ERROR %s: harness exception" % prop)
     return 2
+  except Exception as e:  # pylint: disable=broad-except
+    # The harness is deterministic for a seed and completes on the tree it was built against, so an
+    # exception while it drives the real code means the code's behaviour changed under it (a call that
+    # used to return now raises, an output has another shape, ...).  That breaks the correspondence:
+    # report it as such (DESIGN.md section 1C: broken tie, no failing input identified) rather than as an
+    # infrastructure failure, with the traceback as the replay.
+    tb = traceback.format_exc()
+    traceback.print_exc()
+    try:
+      in_repo = (os.path.realpath(core.REPO) + os.sep) in tb or "/qkeras/" in tb
+      r.disagree("harness-exception", {"exception": type(e).__name__, "message": str(e)[:500],
+                                       "raised_inside_repo_code": in_repo},
+                 "traceback", tb[-4000:])
+      return max(r.finish(), 1)
+    except Exception:  # pylint: disable=broad-except
+      traceback.print_exc()
+      print("INFRA-ERROR %s: harness exception" % prop)
+      return 2
 
 
 if __name__ == "__main__":
